@@ -44,6 +44,9 @@ KEYS = {
 KEYS["tv_a1"] = ("tv1", ("t", [("s", "a"), ("n", 1.0)]))
 KEYS["tv_nan"] = ("tvn", ("t", [("n", NAN), ("n", 1.0)]))
 KEYS["tv_nest"] = ("tvx", ("t", [("t", [("n", 1.0), ("n", 2.0)]), ("s", "x")]))
+# tuples that wrap an earlier key BY REFERENCE, one and two levels: different keys whose hashes fold to the same value
+KEYS["tv_w1"] = ("tw1", ("t", [("t", [("s", "a"), ("n", 1.0)])]))
+KEYS["tv_w2"] = ("tw2", ("t", [("t", [("t", [("s", "a"), ("n", 1.0)])])]))
 UNHASHABLE = {
     "uv_tvec": "utv", "uv_vec": "uvec", "uv_tnest": "utn",
     "u_self": "{m}", "u_selfvec": "[{m}]", "u_selftuple": "(2, [{m}])",
@@ -58,7 +61,7 @@ var ka1 = KA;
 class KA { }
 var ka2 = KA;
 #[constructor(new)] class KI { }
-var tv1 = ("a", 1); var tvn = (0 / 0, 1); var tvx = ((1, 2), "x");
+var tv1 = ("a", 1); var tvn = (0 / 0, 1); var tvx = ((1, 2), "x"); var tw1 = (tv1,); var tw2 = (tw1,);
 var utv = (1, [2]); var uvec = [1]; var utn = ((1, [2]), "x");
 var rga = 0..3;
 var rgb = 0..4;
@@ -168,7 +171,7 @@ def gen_ir(seed):
     pool = [k for k in names if rng.chance(0.35)]
     groups = [["one", "one_f", "one_c"], ["zero", "negzero", "negzero_c"], ["s_ab", "s_ab_c", "s_ab_i", "s_ab_sl"],
               ["t_a1", "t_a1_c"], ["t_nest", "t_nest_c"], ["t_zero", "t_negzero"], ["c_ka1", "c_ka2"], ["t_class", "t_class2"],
-              ["nan", "t_nan", "tv_nan"], ["r_a", "r_b"], ["s_1", "one"], ["tv_a1", "t_a1"], ["tv_nest", "t_nest"], ["t_range", "t_range_c", "t_range_nest", "r_a"]]
+              ["nan", "t_nan", "tv_nan"], ["r_a", "r_b"], ["s_1", "one"], ["tv_a1", "t_a1"], ["tv_nest", "t_nest"], ["tv_w1", "tv_w2", "tv_a1"], ["t_range", "t_range_c", "t_range_nest", "r_a"]]
     for g in groups:
         if rng.chance(0.4):
             pool += g
